@@ -246,7 +246,17 @@ func (r *Executor) getReleaseController(release *v1beta1.BatchRelease, newStatus
 		klog.Info("Partition, but use StatefulSet-Like partition-style release controller for this batch release")
 	}
 
-	// try to use StatefulSet-like rollout controller by default
+	// try to use StatefulSet-like rollout controller by default; it handles StatefulSets and StatefulSet-like custom
+	// workloads only. The other known kinds end up here when the rolling style has no controller for them (an unknown
+	// style, blue-green for a DaemonSet, any style for a ReplicaSet): its helpers panic on those objects, so refuse them
+	// like an unsupported workload instead of crashing the manager.
+	switch gvk.GroupKind() {
+	case util.ControllerKindRS.GroupKind(), util.ControllerKindDep.GroupKind(),
+		util.ControllerKruiseKindCS.GroupKind(), util.ControllerKruiseKindDS.GroupKind():
+		message := fmt.Sprintf("rolling style '%s' is not supported for the workload type '%v'", rollingStyle, gvk)
+		r.recorder.Event(release, v1.EventTypeWarning, "UnsupportedWorkload", message)
+		return nil, fmt.Errorf(message)
+	}
 	klog.InfoS("Using StatefulSet-Like partition-style release controller for this batch release", "workload name", targetKey.Name, "namespace", targetKey.Namespace)
 	return partitionstyle.NewControlPlane(statefulset.NewController, r.client, r.recorder, release, newStatus, targetKey, gvk), nil
 }
